@@ -30,8 +30,8 @@ Section Statements.
   Variable basic_decode : pystr -> pystr -> option pystr.
   Variable backend : pystr -> pystr -> option pystr.
   Variable handler : pystr -> pystr -> pystr -> pystr -> hresp.
-  Variables home_exists rights_w create_fails : pystr -> bool.
-  Notation gate := (gate py_lower py_upper basic_decode backend handler home_exists rights_w create_fails).
+  Variables home_exists home_exists_w rights_w create_fails : pystr -> bool.
+  Notation gate := (gate py_lower py_upper basic_decode backend handler home_exists home_exists_w rights_w create_fails).
   Notation creds := (creds basic_decode).
   Notation backend_login := (backend_login backend).
   Notation mapped := (mapped py_lower py_upper).
@@ -48,28 +48,29 @@ Section Statements.
       is_safe_path_component u = true /\
       In (EBackend (mapped cfg l) pw) (r_effects (gate cfg env)) /\
       m = py_upper (e_method env).
-  Proof. exact (c05_gate py_lower py_upper basic_decode backend handler home_exists rights_w create_fails). Qed.
+  Proof. exact (c05_gate py_lower py_upper basic_decode backend handler home_exists home_exists_w rights_w create_fails). Qed.
 
   (* A handler that runs without a user: no login name was presented, the back-end was never asked. *)
   Theorem C05_gate_anonymous : forall cfg env m bp p,
     In (EDispatch m bp p []) (r_effects (gate cfg env)) ->
     exists ext pw, creds cfg env = CCreds ext [] pw
                    /\ forall l q, ~ In (EBackend l q) (r_effects (gate cfg env)).
-  Proof. exact (c05_gate_anonymous py_lower py_upper basic_decode backend handler home_exists rights_w create_fails). Qed.
+  Proof. exact (c05_gate_anonymous py_lower py_upper basic_decode backend handler home_exists home_exists_w rights_w create_fails). Qed.
 
   (* At most one handler call per request. *)
   Theorem C05_dispatch_once : forall cfg env,
     (List.length (filter is_dispatch (r_effects (gate cfg env))) <= 1)%nat.
-  Proof. exact (c05_dispatch_once py_lower py_upper basic_decode backend handler home_exists rights_w create_fails). Qed.
+  Proof. exact (c05_dispatch_once py_lower py_upper basic_decode backend handler home_exists home_exists_w rights_w create_fails). Qed.
 
   (* The only thing the gate itself stores -- the principal collection -- is created only for the user
-     the back-end returned, only if it is a safe name, absent, and the rights back-end grants W. *)
+     the back-end returned, only if it is a safe name, absent -- at the first look-up and again at the re-check under the
+     exclusive lock -- and the rights back-end grants W. *)
   Theorem C05_home : forall cfg env u c,
     In (EHome u c) (r_effects (gate cfg env)) ->
     exists ext l pw, creds cfg env = CCreds ext l pw /\ l <> [] /\
       backend_login (c_kind cfg) (mapped cfg l) pw = Some u /\ is_safe_path_component u = true
-      /\ home_exists u = false /\ rights_w u = true.
-  Proof. exact (c05_home py_lower py_upper basic_decode backend handler home_exists rights_w create_fails). Qed.
+      /\ home_exists u = false /\ home_exists_w u = false /\ rights_w u = true.
+  Proof. exact (c05_home py_lower py_upper basic_decode backend handler home_exists home_exists_w rights_w create_fails). Qed.
 
   (* Rejected credentials (the back-end returns "") and unsafe user names: no handler runs and nothing is
      stored; the answer is an early exit (400/405/301/404/413 decided without or despite the credentials; 400 also for a
@@ -90,7 +91,7 @@ Section Statements.
      clen_ok cfg env ->
      r_effects r = [EBackend (mapped cfg l) pw] /\
      r_final r = (if ext then FForbidden else FUnauthorized)).
-  Proof. exact (c05_rejected py_lower py_upper basic_decode backend handler home_exists rights_w create_fails). Qed.
+  Proof. exact (c05_rejected py_lower py_upper basic_decode backend handler home_exists home_exists_w rights_w create_fails). Qed.
 
   (* 401 always carries the challenge, and only 401 does. *)
   Theorem C05_401_challenge : forall f,
@@ -102,7 +103,7 @@ Section Statements.
     reaches_auth cfg env = true -> creds cfg env = CCreds ext l pw -> l <> [] ->
     backend_login (c_kind cfg) (mapped cfg l) pw = None ->
     gate cfg env = {| r_effects := [EBackend (mapped cfg l) pw]; r_final := FError |}.
-  Proof. exact (c05_backend_raises py_lower py_upper basic_decode backend handler home_exists rights_w create_fails). Qed.
+  Proof. exact (c05_backend_raises py_lower py_upper basic_decode backend handler home_exists home_exists_w rights_w create_fails). Qed.
 
   (* A malformed Basic header (non-ASCII payload, base64 / charset failure, no colon) only makes the
      request fail: 500, no back-end call, no handler, nothing stored. *)
@@ -113,7 +114,7 @@ Section Statements.
     (is_ascii payload = false \/ basic_decode (e_ctype env) payload = None \/
      exists t, basic_decode (e_ctype env) payload = Some t /\ contains_char colon t = false) ->
     creds cfg env = CFail /\ gate cfg env = {| r_effects := []; r_final := FError |}.
-  Proof. exact (c05_malformed py_lower py_upper basic_decode backend handler home_exists rights_w create_fails). Qed.
+  Proof. exact (c05_malformed py_lower py_upper basic_decode backend handler home_exists home_exists_w rights_w create_fails). Qed.
 
   (* Conversely, header credentials are exactly the decoded text split at its FIRST colon. *)
   Theorem C05_creds_basic : forall cfg env l pw,
@@ -128,17 +129,17 @@ Section Statements.
   Theorem C05_spoof : forall cfg env ru xru,
     c_kind cfg <> ARemoteUser -> c_kind cfg <> AXRemoteUser ->
     gate cfg (set_identity_headers env ru xru) = gate cfg env.
-  Proof. exact (c05_spoof py_lower py_upper basic_decode backend handler home_exists rights_w create_fails). Qed.
+  Proof. exact (c05_spoof py_lower py_upper basic_decode backend handler home_exists home_exists_w rights_w create_fails). Qed.
 
   Theorem C05_spoof_remote_user : forall cfg env xru,
     c_kind cfg = ARemoteUser ->
     gate cfg (set_identity_headers env (e_remote_user env) xru) = gate cfg env.
-  Proof. exact (c05_spoof_remote_user py_lower py_upper basic_decode backend handler home_exists rights_w create_fails). Qed.
+  Proof. exact (c05_spoof_remote_user py_lower py_upper basic_decode backend handler home_exists home_exists_w rights_w create_fails). Qed.
 
   Theorem C05_spoof_x_remote_user : forall cfg env ru,
     c_kind cfg = AXRemoteUser ->
     gate cfg (set_identity_headers env ru (e_x_remote_user env)) = gate cfg env.
-  Proof. exact (c05_spoof_x_remote_user py_lower py_upper basic_decode backend handler home_exists rights_w create_fails). Qed.
+  Proof. exact (c05_spoof_x_remote_user py_lower py_upper basic_decode backend handler home_exists home_exists_w rights_w create_fails). Qed.
 End Statements.
 Print Assumptions C05_gate.
 Print Assumptions C05_gate_anonymous.
@@ -226,12 +227,12 @@ Print Assumptions C05_htpasswd_no_crash.
 (* End to end, auth type htpasswd (cache off): a handler runs as u <> "" only if u is the mapped login, a safe
    name, and the file as it is now has an entry for u whose non-empty digest verifies the presented password. *)
 Theorem C05_gate_htpasswd :
-  forall py_lower py_upper basic_decode handler home_exists rights_w create_fails ext_verify
+  forall py_lower py_upper basic_decode handler home_exists home_exists_w rights_w create_fails ext_verify
          hcfg st t sz mt cfg env m bp p u,
     c_kind cfg = AOther -> h_cache hcfg = false -> flags_ok hcfg st ->
     In (EDispatch m bp p u)
        (r_effects (gate py_lower py_upper basic_decode (ht_backend ext_verify hcfg st (present t sz mt))
-                        handler home_exists rights_w create_fails cfg env)) ->
+                        handler home_exists home_exists_w rights_w create_fails cfg env)) ->
     u <> [] ->
     exists ext l pw h,
       creds basic_decode cfg env = CCreds ext l pw /\ l <> [] /\
